@@ -1,6 +1,7 @@
 package wire
 
 import (
+	"bufio"
 	"bytes"
 	"fmt"
 	"io"
@@ -244,9 +245,26 @@ func c17ReadData(r *eng.Run, retained *[]func() string) string {
 	p.Marks, p.SegMode = MarksOf(s.Frames), DrawSeg(r)
 	cfg := ReadCfg{App: AppReadData, Side: side}
 	model := Model(s, cfg)
+	// The connection as applications often hold it after a handshake: behind
+	// the bufio.Reader (or ReadWriter) the handshake returned.
+	var src io.ReadWriter = p
+	switch r.T.Int(sim.LCfg, 4) {
+	case 1:
+		src = struct {
+			io.Reader
+			io.Writer
+		}{bufio.NewReaderSize(p, []int{16, 256, 4096}[r.T.Int(sim.LSize, 3)]), p}
+		r.Probe("read_helpers_over_bufio_reader")
+	case 2:
+		src = bufio.NewReadWriter(bufio.NewReaderSize(p, []int{16, 256, 4096}[r.T.Int(sim.LSize, 3)]), bufio.NewWriterSize(p, 0))
+		r.Probe("read_helpers_over_bufio_readwriter")
+	}
 	k := 0
 	for {
-		data, _, err := wsutil.ReadData(p, cfg.State())
+		data, _, err := wsutil.ReadData(src, cfg.State())
+		if bw, ok := src.(*bufio.ReadWriter); ok {
+			bw.Flush()
+		}
 		if err != nil {
 			break
 		}
@@ -372,7 +390,7 @@ func c17ClientWriter(r *eng.Run, dst io.Writer, size int) *wsutil.Writer {
 		r.Probe("client_writer_from_pool_after_server_side_user")
 		return wsutil.GetWriter(dst, ws.StateClientSide, ws.OpBinary, size)
 	}
-	return wsutil.NewWriterSize(dst, ws.StateClientSide, ws.OpBinary, size)
+	return wsutil.NewWriterSize(dst, ws.StateClientSide|[]ws.State{0, ws.StateExtended}[r.T.Int(sim.LCfg, 2)], ws.OpBinary, size)
 }
 
 func c17WriteSide(r *eng.Run) string {
@@ -391,7 +409,12 @@ func c17WriteSide(r *eng.Run) string {
 	var err error
 	switch which {
 	case 0:
-		err = wsutil.WriteClientMessage(dst, ws.OpBinary, data)
+		if extra := []ws.State{0, 0, ws.StateExtended, ws.StateFragmented}[r.T.Int(sim.LCfg, 4)]; extra != 0 {
+			err = wsutil.WriteMessage(dst, ws.StateClientSide|extra, ws.OpBinary, data)
+			r.Probe("client_state_with_further_bits")
+		} else {
+			err = wsutil.WriteClientMessage(dst, ws.OpBinary, data)
+		}
 	case 1:
 		w := c17ClientWriter(r, dst, 4096)
 		_, err = w.WriteThrough(data)
